@@ -619,7 +619,7 @@ pub fn run(ctx: &Ctx) {
     }
     ctx.run_prop("product", row_strategy(), ctx.tier.pick(3000, 150_000), row_json, |r| {
         classify(ctx, r);
-        if hash_of(&row_json(r).to_string()) % 499 == 0 {
+        if (ctx.samples_len() < 2 || hash_of(&row_json(r).to_string()) % 499 == 0) {
             ctx.sample(6, || row_json(r));
         }
         check_row(ctx, &scratch.path, r)
